@@ -24,9 +24,10 @@ def file_of(instances):
     return HEAD + "".join("#%d=%s;\n" % (i + 1, t) for i, t in enumerate(instances)) + TAIL
 
 
-def missing_case(c):
-    """(instance text, (part index, parameter index)) for a C15 case."""
-    k, pos, form = c["kind"], c["pos"], c["form"]
+def missing_case(c, before="", after=""):
+    """(instance text, (part index, parameter index)) for a C15 case; before / after: token separators (blanks, line
+    breaks, comments) written around the unset value"""
+    k, pos, form = c["kind"], c["pos"], before + c["form"] + after
     if c["ctx"] == "plain":
         vals = [VALID[k]] * 3
         vals[pos - 1] = form
